@@ -1,22 +1,50 @@
-import N0Verif.Proofs.XPathStore
+import N0Verif.Proofs.XPathCreate
 /-!
 # C03 — assigning to a missing xpath creates exactly the missing chain; `new()` appends
 
 `setItem` is the model of `__setitem__` (with `_add`); it returns the tree after the call and
 whether the call raised — a failing creation leaves what it had already inserted.
+
+Reference semantics: `Val.setAt t p x` ("the original with exactly the slot `p` replaced/inserted"),
+`chain ns v` (nested dictionaries for a chain of names), `appendTo old x` (a list gets one more
+element, a non-list value becomes the first element of a new list).  Paths are written in the
+canonical `//…` form `xpath()` lists (`slash ++ renderPos q` is the path of the existing node `q`).
+
+All theorems are unbounded in the size of the tree, the depth of `q` and the length of the chain.
 -/
 namespace N0.C03
 open N0 N0.Py N0.Val N0.XPath
 
-/-- nested dictionaries for a chain of names ending in `v` -/
-def chain : List Str → Val → Val
-  | [], v => v
-  | n :: ns, v => .dict .n0 [(n, chain ns v)]
+/-! ## 1. what `_find` reports for the miss -/
+
+/-- **miss at a plain key.**  A token list that spells position `q` of the root (a dict), followed by
+a plain key that dict does not have: `_find` returns NOT FOUND with the parent reference at `q`, no
+name, the missing suffix — and the tree untouched. -/
+theorem C03_find_miss_key (t : Val) (rl : Bool) (toks0 : List Str) (q : Pos) (cls : Cls) (kvs : List (Str × Val))
+    (n : Str) (rest : List Str) (hs : Spells toks0 t q (.dict cls kvs)) (hk : KeyTok n)
+    (hl : lookup n kvs = Option.none) (fuel : Nat) (hf : fuel ≥ 2 * toks0.length + 1) :
+    ∃ fnd, findD fuel t [] false true (toks0 ++ n :: rest) (.at []) rl slash
+      = .ok (t, { parent := .at q, nameIdx := Option.none, value := Val.none, found := fnd,
+                  notFound := some (n :: rest) }) :=
+  find_miss_key t rl toks0 q cls kvs n rest hs hk hl fuel hf
+
+/-- **miss at `name[idx]`** whose name is absent (whatever the index text: `new()`, `0`, …). -/
+theorem C03_find_miss_keyidx (t : Val) (rl : Bool) (toks0 : List Str) (q : Pos) (cls : Cls)
+    (kvs : List (Str × Val)) (name e : Str) (rest : List Str) (hs : Spells toks0 t q (.dict cls kvs))
+    (hn : PlainKey name) (he : IdxExpr e) (hl : lookup name kvs = Option.none) (fuel : Nat)
+    (hf : fuel ≥ 2 * toks0.length + 1) :
+    ∃ fnd, findD fuel t [] false true (toks0 ++ (name ++ bracket e) :: rest) (.at []) rl slash
+      = .ok (t, { parent := .at q, nameIdx := Option.none, value := Val.none, found := fnd,
+                  notFound := some ((name ++ bracket e) :: rest) }) :=
+  find_miss_keyidx t rl toks0 q cls kvs _ name e rest hs (split_bracket name e (Or.inr hn) he) hn.ne hn.notUp
+    hn.keyTok.notStar hl fuel hf
+
+/-! ## 2. a chain of fresh names -/
 
 /-- **full statement (names).**  Below an existing dict node at `q`, a chain of fresh plain names
 `n :: ns` creates exactly the nested dictionaries and stores `v` at the end; nothing else changes. -/
 def C03_create_names_stmt : Prop :=
-  ∀ (cls : Cls) (kvs : List (Str × Val)) (q : Pos) (c kcls : Cls) (nkvs : List (Str × Val))
+  ∀ (cls : Cls) (kvs : List (Str × Val)) (q : Pos) (_c kcls : Cls) (nkvs : List (Str × Val))
     (n : Str) (ns : List Str) (v t' : Val) (fuel : Nat),
     PlainPos q → getAt (.dict cls kvs) q = some (.dict kcls nkvs) → lookup n nkvs = Option.none →
     PlainKey n → (∀ m ∈ ns, PlainKey m) →
@@ -24,8 +52,155 @@ def C03_create_names_stmt : Prop :=
     fuel ≥ 2 * (q.length + ns.length + 1) →
     setItem fuel (.dict cls kvs) (slash ++ renderPos (q ++ (n :: ns).map Seg.key)) v = (t', .ok ())
 
+/-- **C03 (names), proved.** -/
+theorem C03_create_names : C03_create_names_stmt := by
+  intro cls kvs q _ kcls nkvs n ns v t' fuel hp hget hl hn hns hset hf
+  exact setItem_create_names cls kvs q kcls nkvs n ns v t' fuel hp hget hl hn hns hset (by omega)
+
+/-- the creation always has a result: the reference tree exists whenever the parent does -/
+theorem C03_create_names_total (t : Val) (q : Pos) (kcls : Cls) (nkvs : List (Str × Val)) (n : Str) (x : Val)
+    (hget : getAt t q = some (.dict kcls nkvs)) : ∃ t', setAt t (q ++ [.key n]) x = some t' := by
+  obtain ⟨t', ht'⟩ := setAt_isSome q t _ (.dict kcls (kvSet n x nkvs)) hget
+  exact ⟨t', by rw [setAt_snoc q t (.key n) x _ (.dict kcls (kvSet n x nkvs)) hget (by simp [setChild])]; exact ht'⟩
+
+/-! ## 3. element-creating steps: `name[new()]`, `name[0]`, `name[len]`, each optionally followed by
+fresh names (`name[new()]/x/y` appends the dict `{x: {y: v}}`) -/
+
+/-- **`name[new()]` appends exactly one element** to the list under `name`; where `name` holds a
+non-list value that value is wrapped as the first element (`[old, v]`). -/
+theorem C03_append_new (cls : Cls) (kvs : List (Str × Val)) (q : Pos) (kcls : Cls)
+    (nkvs : List (Str × Val)) (name : Str) (old : Val) (tail : List Str) (v t' : Val) (fuel : Nat)
+    (hp : PlainPos q) (hget : getAt (.dict cls kvs) q = some (.dict kcls nkvs)) (hn : PlainKey name)
+    (hl : lookup name nkvs = some old) (ht : ∀ x ∈ tail, PlainKey x)
+    (hset : setAt (.dict cls kvs) (q ++ [.key name]) (appendTo old (chain tail v)) = some t')
+    (hf : fuel ≥ 4 * (q.length + 1)) :
+    setItem fuel (.dict cls kvs)
+      (slash ++ renderPos q ++ slash ++ (name ++ bracket sNew) ++ renderPos (tail.map Seg.key)) v = (t', .ok ()) :=
+  setItem_new_existing cls kvs q kcls nkvs name old tail v t' fuel hp hget hn hl ht hset hf
+
+/-- `appendTo` on a list is one more element at the end (so `len` grows by exactly one) … -/
+theorem C03_appendTo_list (c : Cls) (xs : List Val) (x : Val) : appendTo (.list c xs) x = .list c (xs ++ [x]) := rfl
+/-- … and on anything else the two-element list `[old, x]` -/
+theorem C03_appendTo_wrap (old x : Val) (h : isList old = false) : appendTo old x = .list .n0 [old, x] :=
+  appendTo_nonlist h x
+
+/-- **`name[new()]` / `name[0]` on a fresh name** creates the one-element list. -/
+theorem C03_new_on_fresh (cls : Cls) (kvs : List (Str × Val)) (q : Pos) (kcls : Cls)
+    (nkvs : List (Str × Val)) (name e : Str) (tail : List Str) (v t' : Val) (fuel : Nat)
+    (hp : PlainPos q) (hget : getAt (.dict cls kvs) q = some (.dict kcls nkvs)) (hn : PlainKey name)
+    (he : e = sNew ∨ e = ['0']) (hl : lookup name nkvs = Option.none) (ht : ∀ x ∈ tail, PlainKey x)
+    (hset : setAt (.dict cls kvs) (q ++ [.key name]) (.list .n0 [chain tail v]) = some t')
+    (hf : fuel ≥ 2 * q.length + 1) :
+    setItem fuel (.dict cls kvs)
+      (slash ++ renderPos q ++ slash ++ (name ++ bracket e) ++ renderPos (tail.map Seg.key)) v = (t', .ok ()) :=
+  setItem_elem_fresh cls kvs q kcls nkvs name e tail v t' fuel hp hget hn he hl ht hset hf
+
+/-- **`name[len]` on an existing list of length `len`** appends exactly one element. -/
+theorem C03_len_appends (cls : Cls) (kvs : List (Str × Val)) (q : Pos) (kcls : Cls)
+    (nkvs : List (Str × Val)) (name : Str) (c : Cls) (xs : List Val) (tail : List Str) (v t' : Val) (fuel : Nat)
+    (hp : PlainPos q) (hget : getAt (.dict cls kvs) q = some (.dict kcls nkvs)) (hn : PlainKey name)
+    (hl : lookup name nkvs = some (.list c xs)) (ht : ∀ x ∈ tail, PlainKey x)
+    (hset : setAt (.dict cls kvs) (q ++ [.key name]) (.list c (xs ++ [chain tail v])) = some t')
+    (hf : fuel ≥ 2 * q.length + 2) :
+    setItem fuel (.dict cls kvs)
+      (slash ++ renderPos q ++ slash ++ (name ++ bracket (natStr xs.length)) ++ renderPos (tail.map Seg.key)) v
+      = (t', .ok ()) :=
+  setItem_len_existing cls kvs q kcls nkvs name c xs tail v t' fuel hp hget hn hl ht hset hf
+
+/-! ## 4. frame and read-back -/
+
+/-- **frame (names, fresh element list).**  The created slot `w` did not exist; every node that
+existed keeps its position and value, except the ancestors of the new slot (which contain it). -/
+theorem C03_frame_new_slot (t t' v x : Val) (w p : Pos) (hset : setAt t w v = some t')
+    (hnew : getAt t w = Option.none) (hp : getAt t p = some x) (hnp : ¬ p <+: w) : getAt t' p = some x :=
+  frame_new_slot t t' v x w p hset hnew hp hnp
+
+/-- the slot a fresh name addresses does not exist before -/
+theorem C03_fresh_slot (t : Val) (q : Pos) (kcls : Cls) (nkvs : List (Str × Val)) (n : Str)
+    (hget : getAt t q = some (.dict kcls nkvs)) (hl : lookup n nkvs = Option.none) :
+    getAt t (q ++ [.key n]) = Option.none := by
+  rw [getAt_snoc, hget]; simp [child, hl]
+
+/-- **frame (append).**  Appending to the list at `P` keeps every node that existed (also every
+element of the list and everything below them) except the ancestors of the list. -/
+theorem C03_frame_append (t t' : Val) (P : Pos) (c : Cls) (xs : List Val) (z x : Val) (p : Pos)
+    (hset : setAt t P (.list c (xs ++ [z])) = some t') (hP : getAt t P = some (.list c xs))
+    (hp : getAt t p = some x) (hnp : ¬ p <+: P) : getAt t' p = some x :=
+  frame_append t t' P c xs z x p hset hP hp hnp
+
+/-- **frame (wrap).**  Nodes outside the wrapped value keep their position; the wrapped value and
+everything inside it moves below index 0. -/
+theorem C03_frame_wrap (t t' : Val) (P : Pos) (old z x : Val) (p : Pos)
+    (hset : setAt t P (.list .n0 [old, z]) = some t') (hP : getAt t P = some old) (hp : getAt t p = some x) :
+    (¬ p <+: P → ¬ P <+: p → getAt t' p = some x) ∧ (∀ r, p = P ++ r → getAt t' (P ++ .idx 0 :: r) = some x) :=
+  frame_wrap t t' P old z x p hset hP hp
+
+/-- **read-back (names).**  `d[xpath]` is `v` afterwards, and reading does not change the tree. -/
+theorem C03_read_back_names (cls : Cls) (kvs : List (Str × Val)) (q : Pos) (n : Str) (ns : List Str) (v t' : Val)
+    (fuel : Nat) (hp : PlainPos q) (hn : PlainKey n) (hns : ∀ m ∈ ns, PlainKey m)
+    (hset : setAt (.dict cls kvs) (q ++ [.key n]) (chain ns v) = some t')
+    (hf : fuel ≥ 2 * (q.length + ns.length + 1)) :
+    getItem fuel t' (slash ++ renderPos (q ++ (n :: ns).map Seg.key)) = (t', .ok v) :=
+  readback_names cls kvs q n ns v t' fuel hp hn hns hset hf
+
+/-- **read-back (elements).**  After `name[new()]…`, `name[0]…` (fresh name: `ys = []`),
+`name[len]…` (`ys` = the old elements) or the wrap (`ys = [old]`), the value reads back through the
+path with the index replaced by `last()`. -/
+theorem C03_read_back_elem (cls : Cls) (kvs : List (Str × Val)) (q : Pos) (kcls : Cls) (nkvs : List (Str × Val))
+    (name : Str) (c : Cls) (ys : List Val) (tail : List Str) (v t' : Val) (fuel : Nat)
+    (hp : PlainPos q) (hget : getAt (.dict cls kvs) q = some (.dict kcls nkvs)) (hn : PlainKey name)
+    (ht : ∀ x ∈ tail, PlainKey x)
+    (hset : setAt (.dict cls kvs) (q ++ [.key name]) (.list c (ys ++ [chain tail v])) = some t')
+    (hf : fuel ≥ 2 * (q.length + tail.length + 1)) :
+    getItem fuel t'
+      (slash ++ renderPos q ++ slash ++ (name ++ bracket sLast) ++ renderPos (tail.map Seg.key)) = (t', .ok v) :=
+  readback_elem cls kvs q kcls nkvs name c ys tail v t' fuel hp hget hn ht hset hf
+
+/-! ## 5. full statements that stay open -/
+
+/-- **full statement (every path of the honoured grammar `G_ok`).**  `steps` is a creation path
+below the existing node `cur` at `q`: the first step may be a fresh name, `n[new()]` (fresh or
+existing `n`), `n[0]` (fresh), `n[len]`, or — below a list — `[new()]`/`[len]`; later steps are fresh
+names, `n[new()]`, `n[0]`; every element-creating step is last or followed by a name.  Then
+`d[path] = v` yields exactly `createIn`.
+
+Proved: everything except a bare `[new()]`/`[len]` first step (`C03_create_partial`).  For that
+remaining shape the statement is false when the list is an element of a plain `list`
+(`C03_new_in_plain_list_cex`, known finding C03-c); for a list held by a key the path text is the
+same as `name[new()]`/`name[len]` from the parent dict, which `C03_create_partial` covers. -/
+def C03_create_stmt : Prop :=
+  ∀ (cls : Cls) (kvs : List (Str × Val)) (q : Pos) (cur cur' : Val) (s : CStep) (steps : List CStep) (v t' : Val),
+    PlainPos q → getAt (.dict cls kvs) q = some cur → s.first → (∀ x ∈ steps, x.later) → GOk (s :: steps) →
+    createIn cur (s :: steps) v = some cur' → setAt (.dict cls kvs) q cur' = some t' →
+    ∃ n, ∀ fuel ≥ n,
+      setItem fuel (.dict cls kvs) (slash ++ renderPos q ++ (s :: steps).flatMap renderStep) v = (t', .ok ())
+
+/-- **C03 (honoured grammar, first step below a dict), proved.**  The full statement for every
+creation path whose first step is a name step or a named element-creating step (`cur` is then a
+dict): names become nested dictionaries, every `n[new()]`/`n[0]`/`n[len]` appends exactly one
+element (creating the list, or wrapping a non-list value as first element), in any alternation the
+grammar allows and of any length — the result is exactly `createIn`. -/
+theorem C03_create_partial (cls : Cls) (kvs : List (Str × Val)) (q : Pos) (kcls : Cls) (nkvs : List (Str × Val))
+    (s : CStep) (steps : List CStep) (v cur' t' : Val) (fuel : Nat)
+    (hp : PlainPos q) (hget : getAt (.dict cls kvs) q = some (.dict kcls nkvs))
+    (hfirst : s.first) (hidx : ∀ e, s ≠ .idx e) (hsteps : ∀ x ∈ steps, x.later) (hg : GOk (s :: steps))
+    (hcreate : createIn (.dict kcls nkvs) (s :: steps) v = some cur')
+    (hset : setAt (.dict cls kvs) q cur' = some t') (hf : fuel ≥ 4 * (q.length + 1)) :
+    setItem fuel (.dict cls kvs) (slash ++ renderPos q ++ (s :: steps).flatMap renderStep) v = (t', .ok ()) := by
+  have hs : PlainKey s.nameOf := by
+    cases s with
+    | name n => exact hfirst
+    | elem n e => exact hfirst
+    | idx e => exact absurd rfl (hidx e)
+  exact setItem_create_steps cls kvs q kcls nkvs s steps v cur' t' fuel hp hget hs hidx hsteps hg hcreate hset hf
+
+/-- the reference result always exists once `createIn` is defined (the node at `q` exists) -/
+theorem C03_create_total (t : Val) (q : Pos) (cur cur' : Val) (hget : getAt t q = some cur) :
+    ∃ t', setAt t q cur' = some t' := setAt_isSome q t cur cur' hget
+
 /-- **full statement (read back).**  After a successful `d[xpath] = v` the value reads back
-through the same path with `new()` replaced by `last()`. -/
+through the same path with `new()` replaced by `last()`.  (Proved for the shapes above:
+`C03_read_back_names`, `C03_read_back_elem`.) -/
 def C03_read_back_stmt : Prop :=
   ∀ (t t' v : Val) (xp : Str) (fuel : Nat),
     setItem fuel t xp v = (t', .ok ()) →
@@ -55,12 +230,101 @@ theorem C03_misplaced_cex :
       = (.dict .n0 [(['a'], .dict .n0 []), (['c'], .list .n0 [.none, .list .n0 [.str ['V']]])], .ok ()) := by
   decide
 
-/-! Non-vacuity: creations the code honours. -/
+/-- C03-c: `[new()]` directly below a list that is an element of a plain `list` raises `TypeError`
+(`parent['[0]']` is an xpath lookup only on an `n0list`) -/
+theorem C03_new_in_plain_list_cex :
+    setItem 40 (.dict .n0 [(['x'], .list .plain [.list .plain []])])
+        ['x', '[', '0', ']', '[', 'n', 'e', 'w', '(', ')', ']'] (.str ['V'])
+      = (.dict .n0 [(['x'], .list .plain [.list .plain []])], .error .TypeError) := by
+  decide
+
+/-! ## Non-vacuity: the theorems instantiated on concrete trees (explicit char lists) -/
+
+theorem pk_a : PlainKey ['a'] := ⟨by simp, by decide, by simp⟩
+theorem pk_n : PlainKey ['n'] := ⟨by simp, by decide, by simp⟩
+theorem pk_m : PlainKey ['m'] := ⟨by simp, by decide, by simp⟩
+theorem pk_l : PlainKey ['l'] := ⟨by simp, by decide, by simp⟩
+theorem pk_x : PlainKey ['x'] := ⟨by simp, by decide, by simp⟩
+theorem pk_k : PlainKey ['k'] := ⟨by simp, by decide, by simp⟩
+
+/-- a tree with a list `l`, a scalar `k` and an empty dict under `a` -/
+def exTree2 : Val :=
+  .dict .n0 [(['a'], .dict .n0 [(['l'], .list .n0 [.int 1]), (['k'], .str ['s'])])]
+
+/-- `d['//a/n/m'] = 5` through `C03_create_names` -/
+example : setItem 40 exTree2 ['/', '/', 'a', '/', 'n', '/', 'm'] (.int 5)
+    = (.dict .n0 [(['a'], .dict .n0 [(['l'], .list .n0 [.int 1]), (['k'], .str ['s']),
+        (['n'], .dict .n0 [(['m'], .int 5)])])], .ok ()) :=
+  C03_create_names .n0 _ [.key ['a']] .n0 .n0 _ ['n'] [['m']] (.int 5) _ 40 ⟨pk_a, trivial⟩ rfl (by decide)
+    pk_n (by intro m hm; simp at hm; subst hm; exact pk_m) (by decide) (by decide)
+
+/-- `d['//a/l[new()]'] = 5` appends to the list (`C03_append_new`, list branch) -/
+example : setItem 40 exTree2 ['/', '/', 'a', '/', 'l', '[', 'n', 'e', 'w', '(', ')', ']'] (.int 5)
+    = (.dict .n0 [(['a'], .dict .n0 [(['l'], .list .n0 [.int 1, .int 5]), (['k'], .str ['s'])])], .ok ()) :=
+  C03_append_new .n0 _ [.key ['a']] .n0 _ ['l'] (.list .n0 [.int 1]) [] (.int 5) _ 40 ⟨pk_a, trivial⟩ rfl pk_l
+    (by decide) (by simp) (by decide) (by decide)
+
+/-- `d['//a/k[new()]/x'] = 5` wraps the scalar and appends `{x: 5}` (`C03_append_new`, wrap branch, with a tail) -/
+example : setItem 40 exTree2 ['/', '/', 'a', '/', 'k', '[', 'n', 'e', 'w', '(', ')', ']', '/', 'x'] (.int 5)
+    = (.dict .n0 [(['a'], .dict .n0 [(['l'], .list .n0 [.int 1]),
+        (['k'], .list .n0 [.str ['s'], .dict .n0 [(['x'], .int 5)]])])], .ok ()) :=
+  C03_append_new .n0 _ [.key ['a']] .n0 _ ['k'] (.str ['s']) [['x']] (.int 5) _ 40 ⟨pk_a, trivial⟩ rfl pk_k
+    (by decide) (by intro m hm; simp at hm; subst hm; exact pk_x) (by decide) (by decide)
+
+/-- `d['//a/n[0]'] = 5` on a fresh name (`C03_new_on_fresh`) -/
+example : setItem 40 exTree2 ['/', '/', 'a', '/', 'n', '[', '0', ']'] (.int 5)
+    = (.dict .n0 [(['a'], .dict .n0 [(['l'], .list .n0 [.int 1]), (['k'], .str ['s']),
+        (['n'], .list .n0 [.int 5])])], .ok ()) :=
+  C03_new_on_fresh .n0 _ [.key ['a']] .n0 _ ['n'] ['0'] [] (.int 5) _ 40 ⟨pk_a, trivial⟩ rfl pk_n
+    (Or.inr rfl) (by decide) (by simp) (by decide) (by decide)
+
+/-- `d['//a/l[1]'] = 5` with `len = 1` (`C03_len_appends`) -/
+example : setItem 40 exTree2 ['/', '/', 'a', '/', 'l', '[', '1', ']'] (.int 5)
+    = (.dict .n0 [(['a'], .dict .n0 [(['l'], .list .n0 [.int 1, .int 5]), (['k'], .str ['s'])])], .ok ()) :=
+  C03_len_appends .n0 _ [.key ['a']] .n0 _ ['l'] .n0 [.int 1] [] (.int 5) _ 40 ⟨pk_a, trivial⟩ rfl pk_l
+    (by decide) (by simp) (by decide) (by decide)
+
+/-- read-back through `last()` (`C03_read_back_elem`) -/
+example : (getItem 40 (.dict .n0 [(['a'], .dict .n0 [(['l'], .list .n0 [.int 1, .int 5]), (['k'], .str ['s'])])])
+    ['/', '/', 'a', '/', 'l', '[', 'l', 'a', 's', 't', '(', ')', ']']).2 = .ok (.int 5) := by
+  have := C03_read_back_elem .n0 _ [.key ['a']] .n0 _ ['l'] .n0 [.int 1] [] (.int 5)
+    (.dict .n0 [(['a'], .dict .n0 [(['l'], .list .n0 [.int 1, .int 5]), (['k'], .str ['s'])])]) 40 ⟨pk_a, trivial⟩
+    (rfl : getAt exTree2 _ = _) pk_l (by simp) (by decide) (by decide)
+  exact congrArg Prod.snd this
+
+/-- `d['//a/n/m[new()]/x'] = 5`: names, then an element-creating step, then a name (`C03_create_partial`) -/
+example : setItem 40 exTree2 ['/', '/', 'a', '/', 'n', '/', 'm', '[', 'n', 'e', 'w', '(', ')', ']', '/', 'x'] (.int 5)
+    = (.dict .n0 [(['a'], .dict .n0 [(['l'], .list .n0 [.int 1]), (['k'], .str ['s']),
+        (['n'], .dict .n0 [(['m'], .list .n0 [.dict .n0 [(['x'], .int 5)]])])])], .ok ()) :=
+  C03_create_partial .n0 _ [.key ['a']] .n0 _ (.name ['n']) [.elem ['m'] ['n', 'e', 'w', '(', ')'], .name ['x']] (.int 5) _ _ 40
+    ⟨pk_a, trivial⟩ rfl pk_n (by intro e h; cases h)
+    (by intro x hx; simp at hx; rcases hx with rfl | rfl
+        · exact ⟨pk_m, Or.inl (by decide)⟩
+        · exact pk_x)
+    (by simp [GOk, CStep.isName]) rfl (by decide) (by decide)
+
+/-- `d['//a/k[new()]/x/l[0]'] = 5`: wrap, name, fresh one-element list (`C03_create_partial`) -/
+example : setItem 40 exTree2 ['/', '/', 'a', '/', 'k', '[', 'n', 'e', 'w', '(', ')', ']', '/', 'x', '/', 'l', '[', '0', ']'] (.int 5)
+    = (.dict .n0 [(['a'], .dict .n0 [(['l'], .list .n0 [.int 1]),
+        (['k'], .list .n0 [.str ['s'], .dict .n0 [(['x'], .dict .n0 [(['l'], .list .n0 [.int 5])])]])])], .ok ()) :=
+  C03_create_partial .n0 _ [.key ['a']] .n0 _ (.elem ['k'] ['n', 'e', 'w', '(', ')']) [.name ['x'], .elem ['l'] ['0']] (.int 5) _ _ 40
+    ⟨pk_a, trivial⟩ rfl pk_k (by intro e h; cases h)
+    (by intro x hx; simp at hx; rcases hx with rfl | rfl
+        · exact pk_x
+        · exact ⟨pk_l, Or.inr rfl⟩)
+    (by simp [GOk, CStep.isName]) rfl (by decide) (by decide)
+
+/-- creations the code honours, evaluated directly (relative spellings as a user writes them) -/
 example : setItem 40 exTree ['a', '/', 'n', '/', 'm'] (.int 5)
     = (.dict .n0 [(['a'], .dict .n0 [(['n'], .dict .n0 [(['m'], .int 5)])])], .ok ()) := by decide
 example : setItem 40 exTree ['a', '/', 'l', '[', 'n', 'e', 'w', '(', ')', ']'] (.int 5)
     = (.dict .n0 [(['a'], .dict .n0 [(['l'], .list .n0 [.int 5])])], .ok ()) := by decide
 example : setItem 40 exTree ['a', '/', 'l', '[', 'n', 'e', 'w', '(', ')', ']', '/', 'x'] (.int 5)
     = (.dict .n0 [(['a'], .dict .n0 [(['l'], .list .n0 [.dict .n0 [(['x'], .int 5)]])])], .ok ()) := by decide
+/-- the reference semantics of the full statement on a mixed path `n/m[new()]/x` -/
+example : createIn (.dict .n0 []) [.name ['n'], .elem ['m'] sNew, .name ['x']] (.int 5)
+    = some (.dict .n0 [(['n'], .dict .n0 [(['m'], .list .n0 [.dict .n0 [(['x'], .int 5)]])])]) := by decide
+example : (setItem 40 exTree ['a', '/', 'n', '/', 'm', '[', 'n', 'e', 'w', '(', ')', ']', '/', 'x'] (.int 5)).1
+    = .dict .n0 [(['a'], .dict .n0 [(['n'], .dict .n0 [(['m'], .list .n0 [.dict .n0 [(['x'], .int 5)]])])])] := by decide
 
 end N0.C03
